@@ -46,7 +46,13 @@ def field_attr(f):
     if f.custom:
         parts.append('serialize_with = "crate::generated::be_u32::ser"')
         parts.append('deserialize_with = "crate::generated::be_u32::de"')
-    return ("#[borsh(%s)] " % ", ".join(parts)) if parts else ""
+    own = ("#[borsh(%s)] " % ", ".join(parts)) if parts else ""
+    # attributes of other tools around the borsh one (doc comments, lints): the derives must find
+    # `#[borsh(..)]` wherever it stands among them.  Deterministic in the field's name and type.
+    h = sum(ord(c) for c in (str(f.name) + f.ty)) % 4
+    before = '#[doc = "d"] ' if h in (1, 3) else ""
+    after = "#[allow(dead_code)] " if h in (2, 3) else ""
+    return before + own + after
 
 def fields_src(shape, fields, pub=True):
     p = "pub " if pub else ""
